@@ -86,7 +86,7 @@ func genCbor(r *rand.Rand, n int) []string {
 				case 0:
 					deep = append(deep, 0xa1, 0x00) // {0: …}
 				case 1:
-					deep = append(deep, 0xc1+byte(r.Intn(3))*0 + 0x18) // tag(24..)
+					deep = append(deep, 0xc1+byte(r.Intn(3))*0+0x18) // tag(24..)
 					deep = append(deep, 0x40+byte(r.Intn(20)))
 					deep = append(deep[:len(deep)-2], 0xd8, 0x40+byte(r.Intn(20)))
 				default:
